@@ -26,6 +26,7 @@ def dispatch (op : String) (args : List String) (impl : String) : Verdict :=
   | "enc2" => opEnc2 args impl
   | "valid" => opValid args impl
   | "flip" => opFlip args impl
+  | "flipx" => opFlipX args impl
   | "hist" => opHist args impl
   | "serde" => opSerde args impl
   | "fragdec" => opFragDec args impl
